@@ -395,7 +395,7 @@ Example numbers_cleanup_names_documented_instance :
 Proof.
   split; [|vm_compute; reflexivity].
   apply (numbers_cleanup_names_documented _ (CSize 3) (KLogGz 1 1)); [apply ex_numkcfg | apply ex_not_gz | exact ex_ops_basic|].
-  split; [exact ex_sfx_ok | vm_compute; discriminate].
+  exact ex_sfx_ok.
 Qed.
 
 Example numbersdirect_names_documented_instance :
